@@ -203,7 +203,10 @@ def run (P : GParams) (infs recs : List Node) (tmin : Rat) (tmax : ERat) (fuel c
   match init P infs recs tmin with
   | none => TM.fail "KeyError"
   | some s0 =>
-    let d ← TM.popExpo (totalRate P s0)
-    loop P tmax cfuel fuel s0 (some (tmin + d))
+    let tot := totalRate P s0
+    if tot > 0 then do
+      let d ← TM.popExpo tot
+      loop P tmax cfuel fuel s0 (some (tmin + d))
+    else loop P tmax cfuel fuel s0 none
 
 end Gillespie
